@@ -28,14 +28,21 @@ CHECKS = {
                 text="All failing subsets of chain/diamond DAGs are explored exhaustively by TLC (dependents cancelled, independents run, exit "
                      "status); real executions with failing processes are validated against the specification.", note=SCHED_NOTE),
     "C08": dict(category="model_checking", engine="E1", design="5 (C08), 3.1, 3.3",
-                technique="TLA+ XpmScheduler (in-process token): TLC exhaustive Capacity + trace validation (E1)",
+                technique="TLA+ XpmScheduler (in-process token) and XpmTokenFS (file token, several processes): TLC exhaustive Capacity / MutualExclusion + trace validation of E1 executions and of real multi-process token logs (E2-token)",
                 text="Capacity / conservation invariants checked by TLC for all interleavings with heterogeneous requests; real executions with "
-                     "the real ProcessCounterToken validated step by step (available and held amounts are part of the compared state).",
-                note=SCHED_NOTE + " Multi-process file token: see XpmTokenFS (added when built)."),
+                     "the real ProcessCounterToken validated step by step (available and held amounts are part of the compared state). "
+                     "XpmTokenFS models the file token at the grain of ipc lock / recount / create-open / create-write / observer callbacks / "
+                     "reclaim threads (4M states, 2 processes); 2-3 real processes sharing one token directory run scripted scenarios "
+                     "(contention, acquisition attempted while the other is inside the file creation, deaths) and their hook event logs "
+                     "must be behaviours of the model (every file operation inside the critical section, logged counts = recounted files).",
+                note=SCHED_NOTE + " E2-token: mini scheduler processes drive the real CounterToken; jobs are stand-ins holding the run lock; interleavings are scripted with pause points, not exhaustive."),
     "C09": dict(category="model_checking", engine="E1", design="5 (C09), 3.1, 3.3",
-                technique="TLA+ XpmScheduler: TLC deadlock freedom + IdleTokenIsFull + liveness; trace validation incl. aborted starts (E1)",
+                technique="TLA+ XpmScheduler: TLC deadlock freedom + IdleTokenIsFull + liveness; TLA+ XpmTokenFS: ObserversSurvive / Informed / ReclaimOnlyAfterEnd by TLC; trace validation of E1 executions (aborted starts) and of multi-process token logs with scheduler deaths (E2-token)",
                 text="Every way a job ends (success, failure, aborted start) returns its tokens: checked exhaustively on the model and on real "
-                     "executions whose End event requires the model's terminal predicate (tokens full, nothing waiting).", note=SCHED_NOTE),
+                     "executions whose End event requires the model's terminal predicate (tokens full, nothing waiting). Death of a scheduler "
+                     "followed by the job's own end, death in the middle of the token-file creation, partial returns of capacity: scripted on "
+                     "real processes; at every quiescent point of the log a waiting job whose request fits must have been told, and the token "
+                     "files of ended jobs must be gone.", note=SCHED_NOTE + " Liveness across processes is checked at scripted quiescent points only."),
     "C05": dict(category="model_checking", engine="E1+E2", design="5 (C05), 3.1, 3.2",
                 technique="TLA+ XpmScheduler (registry, done markers, restart) + XpmJobDir (competing launches): TLC exhaustive + trace validation of E1 executions and of real-process races (E2)",
                 text="Registry de-duplication, 'never launched again when done' and re-submission are checked by TLC on the scheduler model and on "
